@@ -179,6 +179,15 @@ Theorem C06_most_recently_issued_loaded : forall cfg sp c d i k x m c',
 Proof. exact most_recently_issued_loaded. Qed.
 Print Assumptions C06_most_recently_issued_loaded.
 
+(** the check's recency clause ([Check.spec_recent], evaluated by [check_line6] on the implementation's
+    observation as long as the history is forward) holds of the model's own observation of every step of
+    a forward history: the monitor and [C06_most_recently_issued_loaded] say the same thing *)
+Theorem C06_monitor_sound_recent : forall cfg sp orc h w,
+  reach6f cfg sp (w_core w) -> forward orc (k_st (w_core w)) -> s_load sp = s_save sp ->
+  spec_recent cfg sp h (fst (model_step no_faults cfg sp w h orc)) = true.
+Proof. exact monitor_sound_recent. Qed.
+Print Assumptions C06_monitor_sound_recent.
+
 (** ... and false when an issuer backdates behind a stored certificate: A issues serial 0 dated 20,
     a forced renewal goes to B (A down), which issues serial 1 dated 10: every load returns A's
     certificate although B's was issued later *)
